@@ -150,6 +150,16 @@ ORIGIN = {'type': b'ORIGIN', 'template': [{'label': b'FILE-ID', 'code': 20}, {'l
           'objects': [{'name': (2, 0, b'DLIS_DEFINING_ORIGIN'), 'comps': [{'values': [b'HOLE']}, {'values': [41]}]}]}
 
 
+# An ORIGIN set carrying the attributes a producer normally writes (RP66V1 5.2.1); used by the converters' well section.
+ORIGIN_FULL = {'type': b'ORIGIN', 'template': [
+    {'label': b'FILE-ID', 'code': 20}, {'label': b'FILE-SET-NUMBER', 'code': 18}, {'label': b'CREATION-TIME', 'code': 21},
+    {'label': b'WELL-NAME', 'code': 20}, {'label': b'FIELD-NAME', 'code': 20}, {'label': b'PRODUCER-NAME', 'code': 20},
+    {'label': b'COMPANY', 'code': 20}],
+    'objects': [{'name': (2, 0, b'DLIS_DEFINING_ORIGIN'), 'comps': [
+        {'values': [b'HOLE']}, {'values': [41]}, {'values': [(2011, 0, 8, 20, 9, 30, 15, 0)]}, {'values': [b'WELL 1']},
+        {'values': [b'WILDCAT']}, {'values': [b'ACME LOGGING']}, {'values': [b'ANY OIL COMPANY']}]}]}
+
+
 def lrtype_for(s):
     if s['type'] == b'FILE-HEADER':
         return 0
